@@ -46,6 +46,7 @@ type Options struct {
 	FullEnv     bool              `json:"fullEnv"`
 	AccountID   string            `json:"accountId"`
 	Port0       bool              `json:"port0"`
+	OpWaitMs    int               `json:"opWaitMs"` // bound for a single driver step (default 20 s)
 }
 
 type Stack struct {
